@@ -9,6 +9,7 @@ def checkC12 (l : Line) : Verdict := Id.run do
   let ctl := ctlOf (l.inN "type")
   let rb := parseNatList (l.outS "rb"); let mb := parseNatList (l.outS "mb")
   let r0 := parseNatList (l.outS "r0"); let r4 := parseNatList (l.outS "r4"); let ra := parseNatList (l.outS "ra")
+  let f0 := parseNatList (l.outS "f0"); let f4 := parseNatList (l.outS "f4")
   if rb.length != ws.length then return .bad "length mismatch"
   let mut cart := Cart.init (kindOf (l.inN "type")) banks (ramb / 0x2000)
   let mut regs : CartSpec.Regs := {}
@@ -25,6 +26,10 @@ def checkC12 (l : Line) : Verdict := Id.run do
     if seen0 != romByte 0 then return .specDiff s!"write {i}: byte at 0x0000 is {seen0}, bank 0 holds {romByte 0}"
     if seen4 != romByte (sRom * 0x4000) then
       return .specDiff s!"write {i} ({a}:{v}): byte at 0x4000 is {seen4}, protocol bank {sRom} holds {romByte (sRom * 0x4000)} (impl bank {iRom})"
+    -- the bank that is visible is the bank that is executed
+    if f4.getD i 0 != romByte (sRom * 0x4000) then
+      return .specDiff s!"write {i} ({a}:{v}): an instruction fetch at 0x4000 gets {f4.getD i 0}, protocol bank {sRom} holds {romByte (sRom * 0x4000)} (a data read gets {seen4})"
+    if f0.getD i 0 != romByte 0 then return .specDiff s!"write {i}: an instruction fetch at 0x0000 gets {f0.getD i 0}, bank 0 holds {romByte 0}"
     let expA := if ramb == 0 then 0xff else if ramb < 0x2000 then 1 else sRam + 1
     if seenA != expA then
       return .specDiff s!"write {i} ({a}:{v}): byte at 0xA000 is {seenA}, protocol RAM bank {sRam} is tagged {expA} (impl bank {iRam})"
